@@ -427,8 +427,12 @@ func init() {
 		i := in.strIndex(strArg(a[0]), strArg(a[1]), false)
 		return mkBool(int64(i.C) >= 0)
 	})
-	reg("strings.HasPrefix", func(in *Interp, fr *frame, a []Value) Value { return mkBool(in.strHasPrefix(strArg(a[0]), strArg(a[1]))) })
-	reg("strings.HasSuffix", func(in *Interp, fr *frame, a []Value) Value { return mkBool(in.strHasSuffix(strArg(a[0]), strArg(a[1]))) })
+	reg("strings.HasPrefix", func(in *Interp, fr *frame, a []Value) Value {
+		return mkBool(in.strHasPrefix(strArg(a[0]), strArg(a[1])))
+	})
+	reg("strings.HasSuffix", func(in *Interp, fr *frame, a []Value) Value {
+		return mkBool(in.strHasSuffix(strArg(a[0]), strArg(a[1])))
+	})
 	reg("strings.TrimSuffix", func(in *Interp, fr *frame, a []Value) Value { return in.strTrimSuffix(strArg(a[0]), strArg(a[1])) })
 	reg("strings.TrimPrefix", func(in *Interp, fr *frame, a []Value) Value { return in.strTrimPrefix(strArg(a[0]), strArg(a[1])) })
 	reg("strings.Trim", func(in *Interp, fr *frame, a []Value) Value {
@@ -463,8 +467,12 @@ func init() {
 	reg("strings.ReplaceAll", func(in *Interp, fr *frame, a []Value) Value {
 		return mkStr(strings.ReplaceAll(strArg(a[0]).mustConcrete(), strArg(a[1]).mustConcrete(), strArg(a[2]).mustConcrete()))
 	})
-	reg("strings.ToLower", func(in *Interp, fr *frame, a []Value) Value { return mkStr(strings.ToLower(strArg(a[0]).mustConcrete())) })
-	reg("strings.ToUpper", func(in *Interp, fr *frame, a []Value) Value { return mkStr(strings.ToUpper(strArg(a[0]).mustConcrete())) })
+	reg("strings.ToLower", func(in *Interp, fr *frame, a []Value) Value {
+		return mkStr(strings.ToLower(strArg(a[0]).mustConcrete()))
+	})
+	reg("strings.ToUpper", func(in *Interp, fr *frame, a []Value) Value {
+		return mkStr(strings.ToUpper(strArg(a[0]).mustConcrete()))
+	})
 	reg("strings.Count", func(in *Interp, fr *frame, a []Value) Value {
 		return goInt(strings.Count(strArg(a[0]).mustConcrete(), strArg(a[1]).mustConcrete()))
 	})
@@ -592,7 +600,9 @@ func init() {
 
 	// ---- fmt ----
 	reg("fmt.Sprintf", func(in *Interp, fr *frame, a []Value) Value { return in.sprintf(fr, strArg(a[0]), a[1].([]Value)) })
-	reg("fmt.Errorf", func(in *Interp, fr *frame, a []Value) Value { return in.mkError(fr, in.sprintf(fr, strArg(a[0]), a[1].([]Value))) })
+	reg("fmt.Errorf", func(in *Interp, fr *frame, a []Value) Value {
+		return in.mkError(fr, in.sprintf(fr, strArg(a[0]), a[1].([]Value)))
+	})
 	reg("fmt.Sprint", func(in *Interp, fr *frame, a []Value) Value {
 		var out Str
 		for _, x := range a[0].([]Value) {
@@ -727,6 +737,13 @@ func init() {
 		}
 		in.event("time.Parse", a[0], a[1])
 		r := in.uf("time.Parse", []Value{a[0], a[1]}, []Sort{BoolSort})
+		if ok1 {
+			// documented syntax of a fixed-width layout: success => same length, digits under
+			// 2006/01/02/15/04/05, literal bytes elsewhere (semantic validity stays uninterpreted)
+			if nec, fixed := timeLayoutNecessary(layout, strArg(a[1])); fixed {
+				in.ex.assumeSoft(Implies(r[0], nec))
+			}
+		}
 		if in.br(r[0]) {
 			return Tuple{zero(tt), nilError()}
 		}
@@ -742,6 +759,11 @@ func init() {
 		}
 		// contract: nil, or a 16-byte address that is 4-in-6 or not (class symbolic)
 		r := in.uf("net.ParseIP", []Value{a[0]}, []Sort{BV(2)})
+		in.ex.assumeSoft(Implies(Neq(r[0], BVC(2, 0)), ipNecessary(strArg(a[0]))))
+		in.ex.assumeSoft(Neq(r[0], BVC(2, 3)))
+		if ex := ipExactShort(strArg(a[0])); ex != nil {
+			in.ex.assumeSoft(Eq(r[0], ex))
+		}
 		switch {
 		case in.br(Eq(r[0], BVC(2, 0))):
 			return []Value(nil)
@@ -770,6 +792,9 @@ func init() {
 			return mkBool(json.Valid([]byte(c)))
 		}
 		r := in.uf("json.Valid", []Value{s}, []Sort{BoolSort})
+		if ex := jsonExactShort(s); ex != nil {
+			in.ex.assumeSoft(Eq(r[0], ex))
+		}
 		return symBool(r[0])
 	})
 	reg("os.Stat", func(in *Interp, fr *frame, a []Value) Value {
@@ -1018,4 +1043,263 @@ func (in *Interp) findMethod(T types.Type, name string) *ssa.Function {
 		}
 	}
 	return nil
+}
+
+// ---- lazy refinement of uninterpreted stubs ----
+//
+// A stub result is a free variable (plus congruence). When the solver returns a
+// model, the arguments of every stub call are evaluated under that model and the
+// real function is run on them inside the executor; if the model's result
+// differs, the true fact "these argument bytes => this result" is added to the
+// path condition and the query is repeated. Counterexamples therefore never rest
+// on a result the real function cannot produce for the model's own inputs.
+
+var ufReal = map[string]func(args []string) []uint64{
+	"time.Parse": func(a []string) []uint64 {
+		_, err := time.Parse(a[0], a[1])
+		return []uint64{b2u(err == nil)}
+	},
+	"net.ParseIP": func(a []string) []uint64 {
+		ip := net.ParseIP(a[0])
+		switch {
+		case ip == nil:
+			return []uint64{0}
+		case ip.To4() != nil:
+			return []uint64{1}
+		}
+		return []uint64{2}
+	},
+	"json.Valid": func(a []string) []uint64 { return []uint64{b2u(json.Valid([]byte(a[0])))} },
+	"regexp.MatchString": func(a []string) []uint64 {
+		m, err := regexp.MatchString(a[0], a[1])
+		return []uint64{b2u(m), b2u(err == nil)}
+	},
+}
+
+// strUnderModel evaluates a rope without atoms under m.
+func strUnderModel(v Value, m Model) (string, *Term, bool) {
+	s, ok := v.(Str)
+	if !ok || s.hasAtoms() {
+		return "", nil, false
+	}
+	bs := s.bytes()
+	out := make([]byte, len(bs))
+	var conj []*Term
+	for i, b := range bs {
+		if b.S == nil {
+			out[i] = b.C
+			continue
+		}
+		mv, ok := m.Eval(b.S)
+		if !ok {
+			return "", nil, false
+		}
+		out[i] = byte(mv.U)
+		conj = append(conj, Eq(b.S, BVC(8, mv.U)))
+	}
+	return string(out), And(conj...), true
+}
+
+// refineStubs returns true facts contradicting m's stub results (empty: m is consistent with the real functions).
+func (in *Interp) refineStubs(m Model) []*Term {
+	var out []*Term
+	for name, calls := range in.ufCalls {
+		real := ufReal[name]
+		if real == nil {
+			continue
+		}
+		for _, c := range calls {
+			args := make([]string, len(c.args))
+			cond := TrueT
+			ok := true
+			for i, a := range c.args {
+				s, t, k := strUnderModel(a, m)
+				if !k {
+					ok = false
+					break
+				}
+				args[i] = s
+				cond = And(cond, t)
+			}
+			if !ok {
+				continue
+			}
+			want := real(args)
+			same := true
+			eqs := TrueT
+			for i, r := range c.res {
+				mv, k := m.Eval(r)
+				if !k || mv.U != want[i] {
+					same = false
+				}
+				if r.Sort.K == SBool {
+					eqs = And(eqs, Eq(r, BoolC(want[i] != 0)))
+				} else {
+					eqs = And(eqs, Eq(r, BVC(r.Sort.W, want[i])))
+				}
+			}
+			if !same {
+				out = append(out, Implies(cond, eqs))
+			}
+		}
+	}
+	return out
+}
+
+// timeLayoutNecessary: for a layout made only of the fixed-width tokens 2006 01 02 15 04 05 and
+// literal bytes, a necessary condition for time.Parse(layout, val) to succeed.
+func timeLayoutNecessary(layout string, val Str) (*Term, bool) {
+	if val.hasAtoms() {
+		return nil, false
+	}
+	type piece struct {
+		digits int
+		lit    byte
+	}
+	var ps []piece
+	for i := 0; i < len(layout); {
+		switch {
+		case strings.HasPrefix(layout[i:], "2006"):
+			ps = append(ps, piece{digits: 4})
+			i += 4
+		case strings.HasPrefix(layout[i:], "01"), strings.HasPrefix(layout[i:], "02"), strings.HasPrefix(layout[i:], "15"),
+			strings.HasPrefix(layout[i:], "04"), strings.HasPrefix(layout[i:], "05"):
+			ps = append(ps, piece{digits: 2})
+			i += 2
+		default:
+			c := layout[i]
+			if (c >= '0' && c <= '9') || (c >= 'A' && c <= 'Z') || (c >= 'a' && c <= 'z') || c == '_' || c == '.' || c == ',' {
+				return nil, false // could start another layout token: not handled
+			}
+			ps = append(ps, piece{lit: c})
+			i++
+		}
+	}
+	bs := val.bytes()
+	n := 0
+	for _, p := range ps {
+		if p.digits > 0 {
+			n += p.digits
+		} else {
+			n++
+		}
+	}
+	if len(bs) != n {
+		return FalseT, true
+	}
+	var conj []*Term
+	k := 0
+	for _, p := range ps {
+		if p.digits == 0 {
+			conj = append(conj, Eq(bs[k].Term(), BVC(8, uint64(p.lit))))
+			k++
+			continue
+		}
+		for j := 0; j < p.digits; j++ {
+			t := bs[k].Term()
+			conj = append(conj, And(BVUle(BVC(8, '0'), t), BVUle(t, BVC(8, '9'))))
+			k++
+		}
+	}
+	return And(conj...), true
+}
+
+// ipNecessary: net.ParseIP(s) != nil => at least 2 bytes, all of them hex digits, '.' or ':'.
+func ipNecessary(s Str) *Term {
+	if s.hasAtoms() {
+		return TrueT
+	}
+	bs := s.bytes()
+	if len(bs) < 2 {
+		return FalseT
+	}
+	var conj []*Term
+	hasColon := FalseT
+	for _, b := range bs {
+		t := b.Term()
+		rg := func(lo, hi byte) *Term { return And(BVUle(BVC(8, uint64(lo)), t), BVUle(t, BVC(8, uint64(hi)))) }
+		conj = append(conj, Or(rg('0', '9'), rg('a', 'f'), rg('A', 'F'), Eq(t, BVC(8, '.')), Eq(t, BVC(8, ':'))))
+		hasColon = Or(hasColon, Eq(t, BVC(8, ':')))
+	}
+	if len(bs) < 7 {
+		conj = append(conj, hasColon) // the shortest dotted quad has 7 bytes
+	}
+	return And(conj...)
+}
+
+// ---- exact tables for short inputs (computed from the real functions, cached per process) ----
+
+var shortTables = map[string][]string{}
+
+func acceptedShort(name string, n int, alphabet []byte, accept func(string) bool) []string {
+	key := fmt.Sprintf("%s/%d", name, n)
+	if t, ok := shortTables[key]; ok {
+		return t
+	}
+	var out []string
+	buf := make([]byte, n)
+	var rec func(i int)
+	rec = func(i int) {
+		if i == n {
+			if accept(string(buf)) {
+				out = append(out, string(buf))
+			}
+			return
+		}
+		for _, c := range alphabet {
+			buf[i] = c
+			rec(i + 1)
+		}
+	}
+	rec(0)
+	shortTables[key] = out
+	return out
+}
+
+func memberTerm(bs []SByte, set []string) *Term {
+	var alts []*Term
+	for _, w := range set {
+		conj := make([]*Term, 0, len(w))
+		for i := 0; i < len(w); i++ {
+			conj = append(conj, Eq(bs[i].Term(), BVC(8, uint64(w[i]))))
+		}
+		alts = append(alts, And(conj...))
+	}
+	return Or(alts...)
+}
+
+// ipExactShort: the exact class (0 nil, 1 has To4, 2 pure v6) of net.ParseIP for inputs of up to 4 bytes.
+func ipExactShort(s Str) *Term {
+	if s.hasAtoms() {
+		return nil
+	}
+	bs := s.bytes()
+	if len(bs) > 4 {
+		return nil
+	}
+	alpha := []byte("0123456789abcdefABCDEF.:")
+	v4 := acceptedShort("ip4", len(bs), alpha, func(x string) bool { ip := net.ParseIP(x); return ip != nil && ip.To4() != nil })
+	v6 := acceptedShort("ip6", len(bs), alpha, func(x string) bool { ip := net.ParseIP(x); return ip != nil && ip.To4() == nil })
+	return Ite(memberTerm(bs, v4), BVC(2, 1), Ite(memberTerm(bs, v6), BVC(2, 2), BVC(2, 0)))
+}
+
+// jsonExactShort: json.Valid decided exactly for inputs of up to 2 bytes (3 with GOSYM_JSON3=1).
+func jsonExactShort(s Str) *Term {
+	if s.hasAtoms() {
+		return nil
+	}
+	bs := s.bytes()
+	lim := 2
+	if os.Getenv("GOSYM_JSON3") != "" {
+		lim = 3
+	}
+	if len(bs) > lim {
+		return nil
+	}
+	alpha := make([]byte, 256)
+	for i := range alpha {
+		alpha[i] = byte(i)
+	}
+	ok := acceptedShort("json", len(bs), alpha, func(x string) bool { return json.Valid([]byte(x)) })
+	return memberTerm(bs, ok)
 }
